@@ -421,7 +421,7 @@ def check(case) -> Case:
 
 
 def run(ctx):
-    ctx.explore(cases(), check, max_examples=ctx.n(260, 3500))
+    ctx.explore(cases(), check, max_examples=ctx.n(300, 6000))
 
 
 def replay(case) -> Case:
